@@ -779,12 +779,19 @@ class Fxp():
         # scaling conversion (a raw value is already in the transformed domain, but the object keeps its scaling)
         self.scaled = self.scale is not None and self.bias is not None and (self.bias != 0 or self.scale != 1)
         if self.scaled and not raw:
-            if val.dtype != object and ((np.issubdtype(val.dtype, np.integer) and (val.dtype.itemsize < 8 or val.dtype == np.uint64)) or \
+            if val.dtype == np.uint64:
+                # (unsigned 64-bit values: Python integers - a negative result must not wrap, a wide value must not be rounded)
+                val = val.astype(object)
+            elif val.dtype != object and ((np.issubdtype(val.dtype, np.integer) and val.dtype.itemsize < 8) or \
                 (np.issubdtype(val.dtype, np.floating) and val.dtype.itemsize < 8)):
-                # the affine map is not computed in a narrow or unsigned carrier type (it would wrap, raise or round)
+                # the affine map is not computed in a narrow carrier type (it would wrap, raise or round)
                 val = val.astype(float)
                 if isinstance(vdtype, np.dtype):
                     vdtype = float      # (a list of NumPy scalars carries its NumPy dtype here)
+            if val.dtype != object and np.issubdtype(val.dtype, np.integer) and val.size > 0 and \
+                max(abs(int(np.max(val))), abs(int(np.min(val)))) >= 2**52:
+                # (wide integers: the map is computed with Python integers; int64 would wrap at its edge, float64 would round)
+                val = val.astype(object)
             if self.bias != 0:
                 val = val - self.bias
             if self.scale != 1:
